@@ -647,6 +647,8 @@ def children(t: Term) -> Iterable[Term]:
         return (t[1],)
     if k == "star":
         return (t[1],)
+    if k == "accum":
+        return [t[1]] + [x for i in t[2] for x in (i[1], i[2]) if isinstance(x, tuple)]
     return [x for x in t[1:] if isinstance(x, tuple)]
 
 
